@@ -54,7 +54,134 @@ pub fn cst_sexp(node: &MySyntaxNode) -> S {
     l(v)
 }
 
+// ------------------------------------------------------------------------- classification oracle (model-free)
+
+/// names a pattern binds (`bind_pat` read off the AST)
+fn pat_vars(p: &::ast::ast::Pat, out: &mut Vec<String>) {
+    use ::ast::ast::Pat as P;
+    match p {
+        P::PVar { name, .. } => out.push(name.0.clone()),
+        P::PConstr { args, .. } => args.iter().for_each(|q| pat_vars(q, out)),
+        P::PStruct { fields, .. } => fields.iter().for_each(|(_, q)| pat_vars(q, out)),
+        P::PTuple { pats, .. } => pats.iter().for_each(|q| pat_vars(q, out)),
+        _ => {}
+    }
+}
+
+/// Walk a lowered expression with the DECLARATIVE scope `scope` (parameters, closure parameters, pattern
+/// variables of the enclosing arms, `let`s of the enclosing blocks — passed down only) and report every bare
+/// name whose classification disagrees with it: an `EConstr [x]` that a local binder shadows or that is no
+/// constructor of the file, and an `EPath [x]` written as an identifier expression that IS a visible constructor.
+fn class_expr(e: &::ast::ast::Expr, ctors: &std::collections::HashSet<String>, scope: &mut Vec<String>, out: &mut Vec<String>) {
+    use ::ast::ast::Expr as E;
+    let bare = |p: &::ast::ast::Path| -> Option<String> {
+        let segs = p.segments();
+        if segs.len() == 1 { Some(segs[0].ident.0.clone()) } else { None }
+    };
+    match e {
+        E::EPath { path, astptr } => {
+            if let Some(x) = bare(path) {
+                if astptr.kind() == MySyntaxKind::EXPR_IDENT && ctors.contains(&x) && !scope.contains(&x) {
+                    out.push(format!("visible-constructor-lowered-as-path:{}", x));
+                }
+            }
+        }
+        E::EConstr { constructor, args, .. } => {
+            if let Some(x) = bare(constructor) {
+                if scope.contains(&x) {
+                    out.push(format!("local-binder-lowered-as-constructor:{}", x));
+                } else if !ctors.contains(&x) {
+                    out.push(format!("non-constructor-lowered-as-constructor:{}", x));
+                }
+            }
+            args.iter().for_each(|a| class_expr(a, ctors, scope, out));
+        }
+        E::EStructLiteral { fields, .. } => fields.iter().for_each(|(_, x)| class_expr(x, ctors, scope, out)),
+        E::ETuple { items, .. } | E::EArray { items, .. } => items.iter().for_each(|x| class_expr(x, ctors, scope, out)),
+        E::ELet { value, .. } => class_expr(value, ctors, scope, out),
+        E::EClosure { params, body, .. } => {
+            let n = scope.len();
+            scope.extend(params.iter().map(|p| p.name.0.clone()));
+            class_expr(body, ctors, scope, out);
+            scope.truncate(n);
+        }
+        E::EMatch { expr, arms, .. } => {
+            class_expr(expr, ctors, scope, out);
+            for arm in arms {
+                let n = scope.len();
+                pat_vars(&arm.pat, scope);
+                class_expr(&arm.body, ctors, scope, out);
+                scope.truncate(n);
+            }
+        }
+        E::EIf { cond, then_branch, else_branch, .. } => {
+            class_expr(cond, ctors, scope, out);
+            class_expr(then_branch, ctors, scope, out);
+            class_expr(else_branch, ctors, scope, out);
+        }
+        E::EWhile { cond, body, .. } => {
+            class_expr(cond, ctors, scope, out);
+            class_expr(body, ctors, scope, out);
+        }
+        E::EGo { expr, .. } | E::EUnary { expr, .. } | E::EField { expr, .. } => class_expr(expr, ctors, scope, out),
+        E::EProj { tuple, .. } => class_expr(tuple, ctors, scope, out),
+        E::ECall { func, args, .. } => {
+            class_expr(func, ctors, scope, out);
+            args.iter().for_each(|a| class_expr(a, ctors, scope, out));
+        }
+        E::EBinary { lhs, rhs, .. } => {
+            class_expr(lhs, ctors, scope, out);
+            class_expr(rhs, ctors, scope, out);
+        }
+        E::EBlock { exprs, .. } => {
+            let n = scope.len();
+            for x in exprs {
+                class_expr(x, ctors, scope, out);
+                if let E::ELet { pat, .. } = x {
+                    pat_vars(pat, scope);
+                }
+            }
+            scope.truncate(n);
+        }
+        _ => {}
+    }
+}
+
+/// every function body of a lowered file against the scope rules; the constructor set is read off the
+/// declarations of the lowered file itself (variants of its enums, names of its structs)
+pub fn class_check(f: &::ast::ast::File) -> Vec<String> {
+    use ::ast::ast::Item as I;
+    let mut ctors = std::collections::HashSet::new();
+    for it in f.toplevels.iter() {
+        match it {
+            I::EnumDef(d) => d.variants.iter().for_each(|(v, _)| {
+                ctors.insert(v.0.clone());
+            }),
+            I::StructDef(d) => {
+                ctors.insert(d.name.0.clone());
+            }
+            _ => {}
+        }
+    }
+    let mut out = Vec::new();
+    let mut one = |func: &::ast::ast::Fn| {
+        let mut scope: Vec<String> = func.params.iter().map(|(p, _)| p.0.clone()).collect();
+        let mut v = Vec::new();
+        class_expr(&func.body, &ctors, &mut scope, &mut v);
+        out.extend(v.into_iter().map(|m| format!("{}@{}", m, func.name.0)));
+    };
+    for it in f.toplevels.iter() {
+        match it {
+            I::Fn(func) => one(func),
+            I::ImplBlock(b) => b.methods.iter().for_each(|m| one(m)),
+            _ => {}
+        }
+    }
+    out
+}
+
 pub struct Lowered {
+    pub class: Vec<String>,
     pub cst: String,
     pub parse_errors: bool,
     pub outcome: String,
@@ -91,19 +218,20 @@ pub fn lower_text(src: &str) -> Lowered {
         let file = cst::cst::File::cast(root.clone())?;
         let (ast, diags) = ::ast::lower::lower(file).into_parts();
         let msgs: Vec<S> = diags.iter().map(|d| S::A(d.message().to_string())).collect();
+        let class = ast.as_ref().map(class_check).unwrap_or_default();
         let head = match ast {
             Some(f) => tagged("ok", vec![astdump::file(&f)]),
             None => tagged("none", vec![]),
         };
-        Some((head, tagged("diags", msgs)))
+        Some((head, tagged("diags", msgs), class))
     }));
     match r {
-        Ok(Some((head, diags))) => {
+        Ok(Some((head, diags, class))) => {
             let ok = matches!(&head, S::L(v) if v.first() == Some(&a("ok")));
-            Lowered { cst, parse_errors, outcome: format!("{} {}", head.to_text(), diags.to_text()), panicked: false, ok, kinds }
+            Lowered { class, cst, parse_errors, outcome: format!("{} {}", head.to_text(), diags.to_text()), panicked: false, ok, kinds }
         }
-        Ok(None) => Lowered { cst, parse_errors, outcome: "NOT-A-FILE".into(), panicked: false, ok: false, kinds },
-        Err(p) => Lowered { cst, parse_errors, outcome: format!("PANIC {}", esc_line(&util::panic_message(p))), panicked: true, ok: false, kinds },
+        Ok(None) => Lowered { class: vec![], cst, parse_errors, outcome: "NOT-A-FILE".into(), panicked: false, ok: false, kinds },
+        Err(p) => Lowered { class: vec![], cst, parse_errors, outcome: format!("PANIC {}", esc_line(&util::panic_message(p))), panicked: true, ok: false, kinds },
     }
 }
 
@@ -478,6 +606,47 @@ pub fn main(args: &util::Args) {
                 texts.push((format!("crlf:{}|crlf", p), "crlf".into(), t.replace('\n', "\r\n")));
             }
         }
+        "chains" => {
+            // prefix operator x postfix chains of length 3..=4 (5 in the thorough tier) mixing calls, fields and
+            // projections, over an identifier and a constructor-spelled atom; the expected subtree is built here,
+            // independently of parser, lowering and model: the prefix operator applies to the WHOLE chain
+            let max = if thorough { 5 } else { 4 };
+            let mut k = 0;
+            for (atom, atom_sx) in [("g", "(path g)"), ("a . b", "(field (path a) b)")] {
+                for pre in ["-", "!"] {
+                    for len in 3..=max {
+                        let total = 3usize.pow(len as u32);
+                        for code in 0..total {
+                            let mut c = code;
+                            let mut text = atom.to_string();
+                            let mut sx = atom_sx.to_string();
+                            for j in 0..len {
+                                match c % 3 {
+                                    0 => {
+                                        text.push_str(&format!("(x{})", j));
+                                        sx = format!("(call {} (path x{}))", sx, j);
+                                    }
+                                    1 => {
+                                        text.push_str(&format!(".f{}", j));
+                                        sx = format!("(field {} f{})", sx, j);
+                                    }
+                                    _ => {
+                                        text.push_str(&format!(".{} ", j));
+                                        sx = format!("(proj {} {})", sx, j);
+                                    }
+                                }
+                                c /= 3;
+                            }
+                            let op = if pre == "-" { "neg" } else { "not" };
+                            let expected = format!("(un {} {})", op, sx);
+                            let src = format!("fn t() -> unit {{ let r = {}{}; () }}\n", pre, text);
+                            texts.push((format!("chain{}|{}", k, expected), "chains".into(), src));
+                            k += 1;
+                        }
+                    }
+                }
+            }
+        }
         "texts" => {
             let mut inp = String::new();
             let _ = std::io::stdin().read_to_string(&mut inp);
@@ -505,7 +674,12 @@ pub fn main(args: &util::Args) {
         n_err += (!r.ok && !r.panicked) as usize;
         n_panic += r.panicked as usize;
         n_pe += r.parse_errors as usize;
-        let _ = writeln!(out, "{}\tLOWER\t{}\t{}\tpe={}\t{}\t{}", id, stream, r.cst, r.parse_errors as u8, r.outcome, esc_line(text));
+        let class = if r.class.is_empty() { "class=ok".to_string() } else { format!("class={}", r.class.join(",")) };
+        let (id, expected) = match id.split_once('|') {
+            Some((i, e)) if stream == "chains" => (i.to_string(), e.to_string()),
+            _ => (id.clone(), String::new()),
+        };
+        let _ = writeln!(out, "{}\tLOWER\t{}\t{}\tpe={}\t{}\t{}\t{}\t{}", id, stream, r.cst, r.parse_errors as u8, r.outcome, esc_line(text), class, expected);
     }
     let ks: Vec<String> = kinds.iter().map(|(k, v)| format!("{}:{}", k, v)).collect();
     let _ = writeln!(out, "#KINDS\t{}", ks.join(" "));
